@@ -243,6 +243,10 @@ pub(crate) fn add_int_digits<W, R, T>(
             let n = to_primitive!(a0, Int);
             let a1 = xraise_opt!(args.get(1).map(|e| eval(e, ns, &rt)).transpose()?);
             let b = to_primitive!(a1, Int, LazyBigint::from(10));
+            if b.is_zero() || b.as_ref() == &LazyBigint::from(1) || b.as_ref() == &LazyBigint::from(-1) {
+                // no digit expansion exists: base 0 divides by zero, bases 1 and -1 never reduce the number
+                return xerr(ManagedXError::new("base must not be 0, 1 or -1", rt)?);
+            }
             let mut digits = Vec::new();
             let mut total_bits = 0;
             let mut n = n.clone();
